@@ -525,9 +525,21 @@ def gen_consent(rng, i):
     """C13: converge on a loss-free network with a FIXED one-way delay (so the trace gives delivery times), then
     (a) blackout of one or both directions for a chosen duration, (b) local revocation on one side at a chosen moment,
     (c) a long idle session; application sends probe the send gate throughout."""
-    kind = rng.choice(["blackout", "blackout", "revoke", "idle", "restart"])
+    kind = rng.choice(["blackout", "blackout", "revoke", "idle", "restart"]) if rng.random() > 0.04 else "longloss"
     if kind == "restart":
         return gen_consent_restart(rng, i)
+    if kind == "longloss":
+        # a session of 45 .. 60 minutes over a network that loses a third to a half of the check attempts (never three in a row, so an answer arrives
+        # well within every 30 s): consent must hold for the whole session (each lost answer used to leave a transaction behind: fix e9d3c51)
+        opts = [OPT_CONSENT | rng.choice([0, OPT_REGULAR]) for _ in (0, 1)]
+        delay = rng.choice([1, 5, 20])
+        ops = two_agents(rng, 0, tuple(opts), rng.choice([(1, 0), (0, 1)]), (("10.0.0.1",), ("10.0.1.1",)), 1)
+        ops.append("net,0,0,%d,%d,3" % (delay, delay))
+        ops += ["gather,0,1", "gather,1,1", "run,10"] + signalling(rng, 1) + ["run,6000", "net,%s,0,%d,%d,3" % (rng.choice([0.3, 0.45]), delay, delay)]
+        for _ in range(rng.choice([9, 12])):
+            ops += ["run,300000"] + ["send,%d,1,1,64,%d" % (a, rng.randrange(200)) for a in (0, 1)]
+        ops += ["run,1000"] + final_queries(1)
+        return "cons%d %s" % (i, " ".join(ops)), {"kind": "consent-longloss", "ncomp": 1, "delay": delay, "opts": opts}
     opts = [rng.choice([0, OPT_REGULAR]) | (OPT_CONSENT if rng.random() < 0.75 else 0) for _ in (0, 1)]
     if kind == "revoke":
         opts = [o | OPT_CONSENT for o in opts]
